@@ -663,9 +663,18 @@ class Store:
 
         # If emit is set on a branch node, set the entire branch to the
         # emit value.
-        if '_emit' in config and (self.inner or self.subschema):
+        if '_emit' in config and (
+                self.inner or self.subschema or any(
+                    not str(key).startswith('_') for key in config)):
             emit_value = config.pop('_emit')
             self.set_emit_value(emit=emit_value)
+            # the children that this very configuration declares are
+            # covered too, unless they carry a flag of their own
+            config = {
+                key: (dict(child, _emit=emit_value)
+                      if isinstance(child, dict) and '_emit' not in child
+                      else child)
+                for key, child in config.items()}
 
         if self.schema_keys & set(config.keys()):
             # We are at a leaf node, so apply its config.
@@ -1793,7 +1802,8 @@ class Store:
                         for child, child_node in node.inner.items():
                             state[child] = child_node.schema_topology(
                                 subschema, {})
-                elif key == '_divider':
+                elif key in ('_divider', '_emit'):
+                    # a setting of the branch, not a variable
                     pass
                 elif isinstance(path, dict):
                     node, path = self.outer_path(path)
